@@ -10,7 +10,10 @@ int Futex::wake_one() noexcept {
   Node* node = nullptr;
   {
     ::std::lock_guard<::std::mutex> lock {_mutex};
-    for (node = _awaiter_head.next; node != nullptr; node = node->next) {
+    // Front node is unlinked (next cleared) in every round, so continue from
+    // the new front instead of node->next when take fail.
+    for (node = _awaiter_head.next; node != nullptr;
+         node = _awaiter_head.next) {
       // Unconditionally remove node from list, even when we can not take
       // ownership of it.
 
